@@ -30,6 +30,10 @@ import (
 //	data             valid data set for template Of
 //	data_unknown_id  data set for an id never sent (ID)
 //	data_wrong_count data records with Delta more/fewer fields than template Of (Delta=-100: zero fields)
+//	data_empty_unknown  a data set prepared with an id never sent (ID) and holding no record at all
+//	data_foreign_id  a data set prepared with id ID - never sent, or (Delta=1) the id of another template
+//	                 sent before whose field count differs - whose records were added under template Of
+//	                 and fit that one: the id on the wire names no template these records match
 //	undefined        a set whose type is Undefined
 //	sized_data       data set for the size template whose message is exactly Size bytes
 //	sized_tpl        template set with NFields one-byte fields (message 24+4*NFields bytes), then a
@@ -238,6 +242,53 @@ func runCase(c Case, st *Stats) *ev.Failure {
 			}
 			set, err := exph.DataSet(s.ID, f, [][]ref.Value{r}, s.Path)
 			fl = send(i, fmt.Sprintf("data (a record of %d fields) for template id %d that was never sent", len(f), s.ID), set, err, nil, false)
+			if fl == nil {
+				fl = marker(i)
+			}
+		case "data_empty_unknown":
+			if onWire[s.ID] {
+				continue
+			}
+			set := entities.NewSet(false)
+			err := set.PrepareSet(entities.Data, s.ID)
+			fl = send(i, fmt.Sprintf("data set without records for template id %d that was never sent", s.ID), set, err, nil, false)
+			if fl == nil {
+				fl = marker(i)
+			}
+		case "data_foreign_id":
+			if len(tpls) == 0 || len(s.Recs) == 0 {
+				continue
+			}
+			tp := tpls[s.Of%len(tpls)]
+			id, what := s.ID, fmt.Sprintf("never sent")
+			if s.Delta == 1 {
+				id = 0
+				for _, o := range tpls {
+					if len(o.Fields) != len(tp.Fields) {
+						id, what = o.ID, fmt.Sprintf("the id of a template of %d fields", len(o.Fields))
+						break
+					}
+				}
+				if id == 0 {
+					continue
+				}
+			} else if onWire[id] {
+				continue
+			}
+			set := entities.NewSet(false)
+			err := set.PrepareSet(entities.Data, id)
+			for _, r := range s.Recs {
+				if err != nil {
+					break
+				}
+				els := exph.Elements(tp.Fields, r)
+				if s.Path%3 == 2 {
+					err = set.AddRecordV2(els, tp.ID)
+				} else {
+					err = set.AddRecord(els, tp.ID)
+				}
+			}
+			fl = send(i, fmt.Sprintf("data set with id %d (%s) whose %d-field records were added under template %d", id, what, len(tp.Fields), tp.ID), set, err, nil, false)
 			if fl == nil {
 				fl = marker(i)
 			}
@@ -847,6 +898,13 @@ func genCase(t *rapid.T) Case {
 			}
 		case 6:
 			s.Kind = "undefined"
+			if ntpl > 0 && rapid.Bool().Draw(t, "foreign") {
+				s.Kind, s.Of, s.ID = "data_foreign_id", rapid.IntRange(0, ntpl-1).Draw(t, "of"), rapid.SampledFrom([]uint16{999, 40000, 65535}).Draw(t, "fid")
+				s.Delta = rapid.IntRange(0, 1).Draw(t, "foreign_known")
+				s.Recs = [][]ref.Value{gen.Record(t, tpls[s.Of].Fields, 100)}
+			} else if rapid.Bool().Draw(t, "empty_unknown") {
+				s.Kind, s.ID = "data_empty_unknown", rapid.SampledFrom([]uint16{255, 999, 40000, 65535}).Draw(t, "eid")
+			}
 		case 7, 8:
 			s.Kind, s.Size = "sized_data", rapid.IntRange(65490, 65550).Draw(t, "size")
 		case 9:
